@@ -74,6 +74,11 @@ class Membership:
                 files.append(p)
         with open(os.path.join(out, "o.c"), "w") as fh:
             fh.write("int o;\n")
+        # a sibling directory whose name merely extends the code-base directory's name
+        os.makedirs(os.path.join(root, "cb-old", "sub"))
+        for n in ("a.c", "sub/b.h"):
+            with open(os.path.join(root, "cb-old", n), "w") as fh:
+                fh.write("int old;\n")
         links = []
         for _ in range(rng.randint(0, 3)):
             kind = rng.choice(["file", "dir", "dangling", "outside"])
@@ -91,6 +96,9 @@ class Membership:
                 os.symlink(os.path.join(cb, "missing.c"), lp)
             links.append(lp)
         pats = rng.sample(PATTERNS, rng.randint(0, 3))
+        if rng.random() < 0.35:
+            # order-sensitive lists: a broad pattern followed by a re-inclusion (gitignore: last match wins)
+            pats = rng.choice([["*.h", "!b.h"], ["*.c", "!a.c", "*.F90"], ["inc/*", "!inc/b.h"], ["sub/*", "!sub/a.c", "d.cpp"]])
         return cb, pats
 
     def check(self, inp):
@@ -104,6 +112,7 @@ class Membership:
                 for n in dns + fns:
                     paths.append(os.path.join(dp, n))
             paths.append(os.path.join(root, "out", "o.c"))
+            paths += [os.path.join(root, "cb-old", "a.c"), os.path.join(root, "cb-old", "sub", "b.h")]
             cand = {}
             for p in paths:
                 r = os.path.realpath(p)
